@@ -6,15 +6,14 @@
 // Line protocol: one operation per input line, one canonical result per output line.
 // Byte strings travel hex-encoded; "-" is the empty string; "!" means "absent".
 #include "ada.cpp"  // <repo>/src/ada.cpp, or the amalgamated ada.cpp when its scratch dir is first on -I
-#ifdef ADA_HARNESS_AMALGAMATED
-#include "ada_c.h"
-#endif
 
 #include <cstdio>
 #include <cstring>
 #include <functional>
 #include <iostream>
 #include <map>
+#include <memory>
+#include <limits>
 #include <sstream>
 #include <string>
 #include <vector>
